@@ -26,7 +26,7 @@ THEOREMS = [f'Gnpy.Route.{t}' for t in (
     'linkDisjoint_checker', 'allDisjoint_checker', 'linkDisjoint_symm', 'linkDisjoint_iff', 'oms_disjoint_iff_links',
     'zip_sites', 'linksOf_of_sites', 'isdisjoint_test_iff_linkDisjoint', 'disjointOracle_iff',
     'step2_combinations_disjoint', 'step2_combinations_good', 'selection_sound', 'step4_nil_iff',
-    'step5_single_none_iff', 'pair_complete', 'group_complete_partial')]
+    'step5_single_none_iff', 'pair_complete', 'group_complete_partial', 'overlapping_complete_fails_current')]
 RULE = ('one PRNG; a case is a random mesh (ring with chords / grid / random connected graph, quick 4-7 ROADMs, thorough '
         'up to 10; bidirectional links of 1-3 spans, symmetric or not) designed by GNPy, 2-6 requests (often sharing '
         'end points, as in 1+1 protection; ~35 % with STRICT / LOOSE / mixed include lists of ROADMs or line elements) '
